@@ -471,7 +471,7 @@ impl Area for H2Wire {
     }
     fn cases(&self, thorough: bool) -> u64 {
         if thorough {
-            400_000
+            150_000
         } else {
             24_000
         }
